@@ -190,6 +190,16 @@ class Exec:
                 self.ctx.hit("kept-format-handed-back")
                 DF.set_config(**self.kept)
                 m.cur = m.kept
+        elif k == "render_abandoned":
+            # a rendering (of the chain, or of the parser's descriptors) abandoned at a random line of the library's code -- Ctrl-C while a nested level is
+            # being formatted: formats and later renderings are what they would have been
+            from .. import trace  # noqa: PLC0415
+
+            fp = trace.Failpoint.get()
+            fn = self.chain.to_string if op[1] % 2 else (lambda: self.parser.expand_decay_modes("D0"))
+            _, n = fp.count(fn)
+            status, _w = fp.inject(1 + (op[1] * 7919) % max(1, n), fn)
+            self.ctx.hit("rendering-abandoned-at-a-random-line:" + status)
         elif k == "render":
             self.ctx.hit("render")
             s = self.chain.to_string()
@@ -324,6 +334,8 @@ def random_history(rng, n):
             hist.append(("keep",))
         elif r < 0.94:
             hist.append(("restore_kept",))
+        elif r < 0.965:
+            hist.append(("render_abandoned", rng.randrange(1000)))
         else:
             hist.append(("render",))
     while entered and rng.random() < 0.8:
